@@ -133,6 +133,10 @@ class Validator:
             if int(x) < 0:
                 raise TraitError("negative")
             return x
+        if k == "range05":
+            if isinstance(x, str) or not 0 <= x <= 5:
+                raise TraitError("range")
+            return x
         if k == "mod5":
             return int(x) % 5
         if k == "inc":
